@@ -144,38 +144,57 @@ func AnalyseNeighbourTable(fn *ssa.Function, kinds map[int64]TopoKind, modelingP
 		}
 		return nil
 	}
-	offsetOf := func(v ssa.Value, c *counter) (int64, bool) {
+	// affine: v = a·counter + b with constant a, b
+	var affine func(v ssa.Value, c *counter, d int) (a, b int64, ok bool)
+	affine = func(v ssa.Value, c *counter, d int) (int64, int64, bool) {
+		if d > 6 {
+			return 0, 0, false
+		}
+		if v == ssa.Value(c.phi) {
+			return 1, 0, true
+		}
+		if k, ok := ssau.ConstInt(v); ok {
+			return 0, k, true
+		}
+		x, ok := v.(*ssa.BinOp)
+		if !ok {
+			return 0, 0, false
+		}
+		a1, b1, ok1 := affine(x.X, c, d+1)
+		a2, b2, ok2 := affine(x.Y, c, d+1)
+		if !ok1 || !ok2 {
+			return 0, 0, false
+		}
+		switch x.Op {
+		case token.ADD:
+			return a1 + a2, b1 + b2, true
+		case token.SUB:
+			return a1 - a2, b1 - b2, true
+		case token.MUL:
+			if a1 == 0 {
+				return b1 * a2, b1 * b2, true
+			}
+			if a2 == 0 {
+				return a1 * b2, b1 * b2, true
+			}
+		}
+		return 0, 0, false
+	}
+	// offsetOf: the argument is indices[a·counter + b]; returns (a, b)
+	offsetOf := func(v ssa.Value, c *counter) (int64, int64, bool) {
 		u, ok := v.(*ssa.UnOp)
 		if !ok || u.Op != token.MUL {
-			return 0, false
+			return 0, 0, false
 		}
 		ia, ok := u.X.(*ssa.IndexAddr)
 		if !ok || !isIntSlice(ia.X.Type()) {
-			return 0, false
+			return 0, 0, false
 		}
-		switch x := ia.Index.(type) {
-		case *ssa.Phi:
-			if x == c.phi {
-				return 0, true
-			}
-		case *ssa.BinOp:
-			if x.Op == token.ADD || x.Op == token.SUB {
-				if x.X == c.phi {
-					if k, ok := ssau.ConstInt(x.Y); ok {
-						if x.Op == token.SUB {
-							return -k, true
-						}
-						return k, true
-					}
-				}
-				if x.Op == token.ADD && x.Y == c.phi {
-					if k, ok := ssau.ConstInt(x.X); ok {
-						return k, true
-					}
-				}
-			}
+		a, b, ok := affine(ia.Index, c, 0)
+		if !ok || a <= 0 {
+			return 0, 0, false
 		}
-		return 0, false
+		return a, b, true
 	}
 	ssau.AllInstrs(fn, func(in ssa.Instruction) {
 		call, ok := in.(*ssa.Call)
@@ -212,13 +231,15 @@ func AnalyseNeighbourTable(fn *ssa.Function, kinds map[int64]TopoKind, modelingP
 				undecided = append(undecided, fmt.Sprintf("%s: the linking loop has no counter with a constant start and step", kind.Name))
 				continue
 			}
-			o1, ok1 := offsetOf(args[1], c)
-			o2, ok2 := offsetOf(args[2], c)
-			if !ok1 || !ok2 {
-				undecided = append(undecided, fmt.Sprintf("%s: a linked vertex id is not indices[counter ± const]", kind.Name))
+			m1, o1, ok1 := offsetOf(args[1], c)
+			m2, o2, ok2 := offsetOf(args[2], c)
+			if !ok1 || !ok2 || m1 != m2 {
+				undecided = append(undecided, fmt.Sprintf("%s: a linked vertex id is not indices[k·counter ± const] with one k", kind.Name))
 				continue
 			}
-			a, b := c.start+o1, c.start+o2
+			// positions in the first iteration and the distance between iterations
+			a, b := m1*c.start+o1, m1*c.start+o2
+			c = &counter{phi: c.phi, start: c.start, step: c.step * m1}
 			lo, hi := a, b
 			if lo > hi {
 				lo, hi = hi, lo
